@@ -27,7 +27,33 @@ def cases(rng, tier):
             r = rng.below(3)
             ms.append(("4", 0x0A000000 + rng.below(50)) if r == 0 else ("6", (0xFE80 << 112) + rng.below(50)) if r == 1 else ("P", rng.below(65536)))
         ms = list(dict.fromkeys(ms))
-        out.append("HASHI %s %x %s" % (rng.choice(["a", "inst", "é"]).encode().hex(), len(ms), " ".join("%s %x" % m for m in ms)))
+        toks = ["%s %x" % m for m in ms]
+        keys = ["k%d" % i for i in range(rng.choice([0, 1, 2, 8]))]
+        for k in keys:
+            v = rng.choice([None, "", "v", "é"])
+            toks.append("A %s %s" % (k.encode().hex(), "N" if v is None else "V " + (v.encode().hex() or "-")))
+        out.append("HASHI %s %x %s" % (rng.choice(["a", "inst", "é"]).encode().hex(), len(toks), " ".join(toks)))
+    # independently built names / records: equal ones must hash equally (the model's equality is exact on bytes)
+    names = [[b"www", b"example", b"com"], [b"WWW", b"Example", b"COM"], [b"www", b"example"], [b"\xff", b"a"], [b"\xFF", b"A"],
+             [], [b"MyPrinter", b"_ipp", b"_tcp", b"local"], [b"myprinter", b"_ipp", b"_tcp", b"LOCAL"], [b"www.example", b"com"]]
+    for a in names:
+        for b in names:
+            out.append("EQHASH N %s %s" % (" ".join(dns.name_toks(a)), " ".join(dns.name_toks(b))))
+    for _ in range(600 if tier == "quick" else 6000):
+        r = dns.gen_rr(rng, [[b"example", b"com"]])
+        r2 = dict(r)
+        m = rng.below(6)
+        if m == 0:
+            r2["ttl"] = (r["ttl"] + 1) % 2 ** 32
+        elif m == 1:
+            r2["cf"] = not r["cf"]
+        elif m == 2:
+            r2["name"] = [l.swapcase() for l in r["name"]]
+        elif m == 3:
+            r2["class"] = 3 if r["class"] != 3 else 1
+        elif m == 4:
+            r2 = dns.gen_rr(rng, [[b"example", b"com"]])
+        out.append("EQHASH R %s %s" % (" ".join(dns.rr_toks(r)), " ".join(dns.rr_toks(r2))))
     return out
 
 
@@ -48,6 +74,12 @@ def oracle(case, out):
         return "%s on %s" % (out, case[:300])
     if case.startswith("OWN") and out.startswith("OK") and not out.endswith(" same"):
         return "an owned copy / clone differs from the original: %s (input %s)" % (out, case.split()[1][:300])
+    if case.startswith("EQHASH"):
+        t = out.split()
+        for i in range(0, len(t), 2):
+            if t[i] == "1" and t[i + 1] != "1":
+                return "two values compare equal but feed the hasher different streams: %s" % case[:300]
+        return None
     if case.startswith("HASHI"):
         eq, same = out.split()
         if eq != "1":
